@@ -31,6 +31,13 @@ class ArrayBox(Box):
     def __len__(self):
         return len(self._value)
 
+    def __iter__(self):
+        # (without this Python falls back on __getitem__, which ends the iteration over a 0-d
+        # array silently instead of refusing it as NumPy does)
+        if anp.ndim(self) == 0:
+            raise TypeError("iteration over a 0-d array")
+        return (self[i] for i in range(len(self)))
+
     def astype(self, *args, **kwargs):
         return anp._astype(self, *args, **kwargs)
 
